@@ -202,8 +202,8 @@ func rlEvent(tr *vh.Trace, sc int, in input, mask int) {
 		ev["hex"] = hex.EncodeToString(in.data)
 	}
 	ev["pkt"] = packetObs(in.data, in.first)
-	var obs []vh.M
-	var who []int // container + 4*IgnoreUnsupported
+	var obs, mobs []vh.M
+	var who, mwho []int // container + 4*IgnoreUnsupported (Put + SetDecodingLayerContainer); 8 + container: AddDecodingLayer in plan order; 12 + container: layers added after a decode
 	for ii, ign := range []bool{false, true} {
 		for kind := 0; kind < 4; kind++ {
 			var log []vh.M
@@ -215,8 +215,71 @@ func rlEvent(tr *vh.Trace, sc int, in input, mask int) {
 			who = append(who, kind+4*ii)
 		}
 	}
+	// construction the way doc.go shows: an order of AddDecodingLayer calls with the decoder of the parser's first
+	// type first / in the middle / last, and a cut after which the remaining layers join a parser that has decoded
+	pr := vh.NewRand(uint64(sc)*131 + uint64(mask))
+	pos := sc % 3
+	var order []string
+	cut := 0
+	for kind := 0; kind < 4; kind++ {
+		var log []vh.M
+		dls := inOrder(freshLayers(mask, &log), in.first, vh.NewRand(uint64(sc)*131+uint64(mask)), pos)
+		p := addParser(in.first, kind, dls)
+		var decoded []gopacket.LayerType
+		obs = append(obs, parserRun(p, &log, in.data, &decoded))
+		who = append(who, 8+kind)
+	}
+	for kind := 0; kind < 4; kind++ {
+		var log []vh.M
+		dls := inOrder(freshLayers(mask, &log), in.first, vh.NewRand(uint64(sc)*131+uint64(mask)), pos)
+		if kind == 0 {
+			cut = pr.Intn(len(dls) + 1)
+			order = order[:0]
+			for _, d := range dls {
+				order = append(order, d.(*rec).t.String())
+			}
+		}
+		p := lateParser(in.first, kind, dls[:cut])
+		var decoded []gopacket.LayerType
+		mobs = append(mobs, parserRun(p, &log, in.data, &decoded))
+		mwho = append(mwho, kind)
+		for _, d := range dls[cut:] {
+			p.AddDecodingLayer(d)
+		}
+		obs = append(obs, parserRun(p, &log, in.data, &decoded))
+		who = append(who, 12+kind)
+	}
+	if order == nil {
+		order = []string{}
+	}
+	ev["plan"] = vh.M{"order": order, "cut": cut, "firstpos": pos}
+	ev["mid"] = vh.M{"s": append([]string{}, order[:cut]...), "res": group(mobs, mwho, nil)}
 	ev["res"] = group(obs, who, nil)
 	tr.Emit(ev)
+}
+
+// inOrder shuffles the layers and puts the decoder of the parser's first type (if present) first (pos 0), in the
+// middle (1) or last (2).
+func inOrder(dls []gopacket.DecodingLayer, first gopacket.LayerType, r *vh.Rand, pos int) []gopacket.DecodingLayer {
+	for i := len(dls) - 1; i > 0; i-- {
+		j := r.Intn(i + 1)
+		dls[i], dls[j] = dls[j], dls[i]
+	}
+	fi := -1
+	for i, d := range dls {
+		if d.(*rec).t == first {
+			fi = i
+		}
+	}
+	if fi < 0 {
+		return dls
+	}
+	f := dls[fi]
+	rest := append(append([]gopacket.DecodingLayer{}, dls[:fi]...), dls[fi+1:]...)
+	at := []int{0, len(rest) / 2, len(rest)}[pos]
+	out := append([]gopacket.DecodingLayer{}, rest[:at]...)
+	out = append(out, f)
+	return append(out, rest[at:]...)
 }
 
 // runReal: part (2)
@@ -314,10 +377,27 @@ func runStale(tr *vh.Trace, seqs [][]int, seed uint64, rounds int) int {
 				progress.Store(int64(sc))
 				curCase.Store(fmt.Sprintf("%s %v", pname, s))
 				var log []vh.M
-				p := newParser(first, si%4, freshLayers(255, &log))
+				var p *gopacket.DecodingLayerParser
+				dls := freshLayers(255, &log)
+				late := 0
+				switch (si / 4) % 3 {
+				case 0: // container filled with Put, installed with SetDecodingLayerContainer
+					p = newParser(first, si%4, dls)
+				case 1: // AddDecodingLayer one by one, first-type decoder first / in the middle / last
+					p = addParser(first, si%4, inOrder(dls, first, vh.NewRand(uint64(si)), si%3))
+				default: // half of the layers join after the first packet of the sequence
+					dls = inOrder(dls, first, vh.NewRand(uint64(si)), si%3)
+					late = len(dls) / 2
+					p = lateParser(first, si%4, dls[:late])
+				}
 				var decoded []gopacket.LayerType
 				var o vh.M
-				for _, idx := range s {
+				for k, idx := range s {
+					if k == 1 && late > 0 {
+						for _, d := range dls[late:] {
+							p.AddDecodingLayer(d)
+						}
+					}
 					o = parserRun(p, &log, pool[idx-1].data, &decoded)
 				}
 				last := s[len(s)-1]
